@@ -632,3 +632,98 @@ theorem contentTree_leaves (s : MsgState) (bM bR bA : Bytes) (embeds attachments
   · intro e he; obtain ⟨x, _, rfl⟩ := List.mem_map.mp he; simp [leafOfFile, IsLeaf]
 
 end GoMail.Mime
+
+namespace GoMail.Mime
+open GoMail
+
+/-! ### inside an already open multipart (the S/MIME wrapper): no side conditions at all -/
+
+theorem machine_nested (hM hR hA : Bool) (bM bR bA out b0 : Bytes) (l0 : Bool) (rest : List (Bytes × Bool))
+    (parts embeds atts : List Ent) :
+    (trun (openOps hM hR hA bM bR bA) (out, (b0, l0) :: rest)).2 ≠ [] ∧
+    (trun (parts.map Op.lf ++ clsIf hA) (trun (openOps hM hR hA bM bR bA) (out, (b0, l0) :: rest))).2 ≠ [] ∧
+    (trun (parts.map Op.lf ++ clsIf hA ++ embeds.map Op.lf ++ clsIf hR) (trun (openOps hM hR hA bM bR bA) (out, (b0, l0) :: rest))).2 ≠ [] ∧
+    trun (parts.map Op.lf ++ clsIf hA ++ embeds.map Op.lf ++ clsIf hR ++ atts.map Op.lf ++ clsIf hM)
+        (trun (openOps hM hR hA bM bR bA) (out, (b0, l0) :: rest)) =
+      (out ++ serList b0 l0 (treeOf hM hR hA bM bR bA parts embeds atts),
+       (b0, l0 || !(treeOf hM hR hA bM bR bA parts embeds atts).isEmpty) :: rest) := by
+  cases hM <;> cases hR <;> cases hA
+  all_goals simp only [openOps, opnIf, clsIf, treeOf, if_true, if_false, Bool.false_eq_true, List.nil_append, List.append_nil,
+      trun_append, trun_cons, trun_nil, tstep, trun_leaves, List.cons_append]
+  all_goals simp [Ent.ser, serList, serList_append, List.append_assoc]
+  cases parts <;> cases embeds <;> cases atts <;> simp
+
+/-- the layer-opening and content stages of writeMsg inside an open multipart (stack not empty):
+    they write the message tree behind delimiters of that multipart -/
+theorem nested_refines (s : MsgState) (e : Entropy) (p0 : PW) (embeds attachments : List FileM)
+    (b0 : Bytes) (l0 : Bool) (rest : List (Bytes × Bool)) (h0 : p0.stack = (b0, l0) :: rest) :
+    (stageContent s false (stageOpen s e false p0).1 embeds attachments).out =
+      p0.out ++ serList b0 l0 (contentTree s (stageOpen s e false p0).2.bMixed (stageOpen s e false p0).2.bRelated
+        (stageOpen s e false p0).2.bAlt embeds attachments) ∧
+    (stageContent s false (stageOpen s e false p0).1 embeds attachments).stack =
+      (b0, l0 || !(contentTree s (stageOpen s e false p0).2.bMixed (stageOpen s e false p0).2.bRelated
+        (stageOpen s e false p0).2.bAlt embeds attachments).isEmpty) :: rest := by
+  have hv0 : p0.view = (p0.out, (b0, l0) :: rest) := by simp [PW.view, h0]
+  have hopen := open_view s e p0
+  rw [hv0] at hopen
+  obtain ⟨m1, m2, m3, mrun⟩ := machine_nested (hasMixed s) (hasRelated s) (hasAlt s)
+    (stageOpen s e false p0).2.bMixed (stageOpen s e false p0).2.bRelated (stageOpen s e false p0).2.bAlt p0.out b0 l0 rest
+    ((s.parts.filter (fun x => !x.deleted && !x.smime)).map (leafOfPart s)) (embeds.map leafOfFile) (attachments.map leafOfFile)
+  have hcv := content_view s (stageOpen s e false p0).1 embeds attachments
+    (Or.inr (by
+      have : (stageOpen s e false p0).1.view.2 ≠ [] := by rw [hopen]; exact m1
+      exact this))
+    (Or.inr (by rw [hopen]; exact m2))
+    (Or.inr (by rw [hopen]; exact m3))
+  rw [hopen] at hcv
+  unfold openOps at mrun
+  constructor
+  · rw [contentTree_eq]
+    show (stageContent s false (stageOpen s e false p0).1 embeds attachments).view.1 = _
+    rw [hcv]; unfold partOps fileOps; rw [mrun]
+  · rw [contentTree_eq]
+    show (stageContent s false (stageOpen s e false p0).1 embeds attachments).view.2 = _
+    rw [hcv]; unfold partOps fileOps; rw [mrun]
+
+end GoMail.Mime
+
+namespace GoMail.Mime
+open GoMail
+
+theorem stageOpen_outer (s : MsgState) (e : Entropy) (p : PW) :
+    stageOpen s e true p = stageOpen s e false (((p.startMP mimeSigned e.bSigned e.bSigned).1).str (crlf ++ crlf)) := by
+  unfold stageOpen; simp
+
+theorem stageContent_outer (s : MsgState) (p : PW) (embeds attachments : List FileM) :
+    stageContent s true p embeds attachments =
+      ((s.parts.filter (·.smime)).foldl (fun p x => p.writePart s x) (stageContent s false p embeds attachments)).stopMP := by
+  unfold stageContent; simp
+
+/-- **The signed render is a multipart/signed around the message tree and the signature part.**
+    After the message header (stack empty), the stages of writeMsg with the S/MIME wrapper write
+    exactly the serialisation of ONE entity: multipart/signed (protocol, micalg) whose children are
+    the message tree followed by the signature part(s), closed with the boundary it was opened with. -/
+theorem signed_refines (s : MsgState) (e : Entropy) (p : PW) (embeds attachments : List FileM) (h0 : p.stack = []) :
+    (stageContent s true (stageOpen s e true p).1 embeds attachments).out =
+      p.out ++ (Ent.multi mimeSigned (p.startMP mimeSigned e.bSigned e.bSigned).2
+        (contentTree s (stageOpen s e true p).2.bMixed (stageOpen s e true p).2.bRelated (stageOpen s e true p).2.bAlt embeds attachments ++
+          (s.parts.filter (·.smime)).map (leafOfPart s))).ser ∧
+    (stageContent s true (stageOpen s e true p).1 embeds attachments).stack = [] := by
+  obtain ⟨t1, t2⟩ := startMP_top p mimeSigned e.bSigned e.bSigned h0
+  obtain ⟨u1, u2⟩ := str_out (p.startMP mimeSigned e.bSigned e.bSigned).1 (crlf ++ crlf)
+  have hst : (((p.startMP mimeSigned e.bSigned e.bSigned).1).str (crlf ++ crlf)).stack =
+      [((p.startMP mimeSigned e.bSigned e.bSigned).2, false)] := by rw [u2, t2]
+  have hout : (((p.startMP mimeSigned e.bSigned e.bSigned).1).str (crlf ++ crlf)).out =
+      p.out ++ multiHead mimeSigned (p.startMP mimeSigned e.bSigned e.bSigned).2 := by
+    rw [u1, t1]; simp [multiHead, List.append_assoc]
+  rw [stageOpen_outer, stageContent_outer]
+  obtain ⟨n1, n2⟩ := nested_refines s e (((p.startMP mimeSigned e.bSigned e.bSigned).1).str (crlf ++ crlf)) embeds attachments
+    (p.startMP mimeSigned e.bSigned e.bSigned).2 false [] hst
+  obtain ⟨f1, f2⟩ := foldl_leaves (fun p x => p.writePart s x) (leafOfPart s) (fun p x b l rest hs => writePart_out p s x b l rest hs)
+    (s.parts.filter (·.smime)) _ _ _ _ n2
+  obtain ⟨c1, c2⟩ := stopMP_out _ _ _ _ f2
+  refine ⟨?_, c2⟩
+  rw [c1, f1, n1, hout]
+  simp [Ent.ser, serList_append, List.append_assoc]
+
+end GoMail.Mime
